@@ -219,6 +219,11 @@ pub enum Val {
     SectionAdv(Blob, u8),
     /// `Type`, index into TYPE_CODES
     Type(usize),
+    /// a caller-defined `WriteToHeader` implementation that appends these bytes; `mode` says how:
+    /// 0 = one write, honest count; 1 = one write, reports 0; 2 = one write, reports len + 7;
+    /// 3 = byte-at-a-time writes, reports the number of write calls made; 4 = two halves, reports
+    /// only the second half. What the builder emits must not depend on the reported number.
+    Custom(Blob, u8),
 }
 
 /// Big-endian bytes of the low `width` bytes of a two's complement value.
@@ -266,6 +271,7 @@ impl Val {
             Val::TlvTupleType(t, b) => tlv(TYPE_CODES[*t].1, &b.bytes())?,
             Val::Section(b) | Val::SectionAdv(b, _) => b.bytes(),
             Val::Type(t) => vec![TYPE_CODES[*t].1],
+            Val::Custom(b, _) => b.bytes(),
         })
     }
 
@@ -292,6 +298,7 @@ impl Val {
             Val::Section(_) => "section",
             Val::SectionAdv(..) => "section-advanced",
             Val::Type(_) => "type",
+            Val::Custom(..) => "custom-impl",
         }
     }
 
@@ -318,6 +325,7 @@ impl Val {
             Val::Section(b) => format!("section,{}", b.text()),
             Val::SectionAdv(b, k) => format!("sectionadv,{},{}", b.text(), k),
             Val::Type(t) => format!("type,{}", t),
+            Val::Custom(b, m) => format!("custom,{},{}", b.text(), m),
         }
     }
 
@@ -346,6 +354,7 @@ impl Val {
             "section" => Val::Section(Blob::parse(a)?),
             "sectionadv" => Val::SectionAdv(Blob::parse(a)?, p.get(2)?.parse().ok()?),
             "type" => Val::Type(a.parse().ok()?),
+            "custom" => Val::Custom(Blob::parse(a)?, p.get(2)?.parse().ok()?),
             _ => return None,
         })
     }
@@ -589,7 +598,16 @@ pub const SIZES: [usize; 24] = [
 ];
 
 fn small_size(rng: &mut Rng) -> usize {
-    *rng.pick(&[0usize, 1, 2, 3, 4, 4, 5, 8, 12, 16, 36, 255, 256])
+    match rng.below(16) {
+        0..=8 => *rng.pick(&[0usize, 1, 2, 3, 4, 4, 5, 8, 12, 16, 36, 255, 256]),
+        // every length up to 300 (an encoder with a stack buffer or a fast path has its own limits)
+        9..=13 => rng.below(301) as usize,
+        14 => {
+            let k = rng.range(3, 12);
+            (1usize << k) + rng.below(3) as usize - 1
+        }
+        _ => rng.below(2000) as usize,
+    }
 }
 
 pub fn rand_blob(rng: &mut Rng, big_ok: bool) -> Blob {
@@ -639,6 +657,11 @@ pub fn tlv_kind(rng: &mut Rng) -> u8 {
 }
 
 pub fn rand_val(rng: &mut Rng, big_ok: bool) -> Val {
+    if rng.chance(1, 24) {
+        let mut b = rand_blob(rng, false);
+        b.len = b.len.min(4096);
+        return Val::Custom(b, rng.below(5) as u8);
+    }
     match rng.below(14) {
         0..=3 => rand_int(rng),
         4 | 5 => Val::Bytes(rand_blob(rng, big_ok)),
@@ -872,4 +895,67 @@ pub fn short_history(idx: u64) -> History {
         idx /= ALPHABET;
     }
     History { ctor, ops }
+}
+
+
+// ---------------------------------------------------------------------------------------------
+// dense value lengths and history siblings
+
+/// hist-lens: one payload of every length of the dense ladder through each encoder kind.
+pub const LENS_KINDS: u64 = 7;
+pub fn lens_history_count() -> u64 {
+    crate::v2::len_ladder().len() as u64 * LENS_KINDS
+}
+pub fn lens_history(idx: u64, rng: &mut Rng) -> History {
+    let ladder = crate::v2::len_ladder();
+    let l = ladder[(idx / LENS_KINDS) as usize % ladder.len()];
+    let blob = Blob::new((rng.next() >> 16) | 2, l);
+    let k = tlv_kind(rng);
+    let val = match idx % LENS_KINDS {
+        0 => Op::Write(Val::TlvStruct(k, blob)),
+        1 => Op::Write(Val::TlvOwned(k, blob)),
+        2 => Op::Write(Val::TlvTuple(k, blob)),
+        3 => Op::Write(Val::TlvTupleType(rng.below(12) as usize, blob)),
+        4 => Op::WriteTlv(k, blob),
+        5 => Op::Write(Val::Bytes(blob)),
+        _ => Op::Batch(vec![Val::U8(7), Val::TlvStruct(k, blob), Val::U16(0xBEEF)]),
+    };
+    let ctor = if rng.coin() { Ctor::New(0x21, 0x00) } else { rand_ctor(rng) };
+    let mut ops = vec![val];
+    if rng.chance(1, 3) {
+        ops.insert(0, Op::Write(rand_int(rng)));
+    }
+    if rng.chance(1, 3) {
+        ops.push(Op::Write(rand_int(rng)));
+    }
+    History { ctor, ops }
+}
+
+/// Histories related to `h`, to be run right after it on the same thread: building is specified
+/// as a function of the call history of *this* builder, so nothing may carry over from a builder
+/// that was constructed with the same arguments, or from a call that failed.
+pub fn history_siblings(h: &History, rng: &mut Rng) -> Vec<History> {
+    let mut v = Vec::new();
+    let x = *rng.pick(&[7u16, 0, 1, 65535, 300]);
+    // same constructor arguments, nothing written, explicit length / no explicit length
+    v.push(History { ctor: h.ctor.clone(), ops: vec![Op::SetLength(Some(x))] });
+    v.push(History { ctor: h.ctor.clone(), ops: vec![] });
+    // the same calls without / with other explicit lengths
+    if h.ops.iter().any(|o| matches!(o, Op::SetLength(_))) {
+        v.push(History { ctor: h.ctor.clone(), ops: h.ops.iter().filter(|o| !matches!(o, Op::SetLength(_))).cloned().collect() });
+        v.push(History {
+            ctor: h.ctor.clone(),
+            ops: h.ops.iter().map(|o| if let Op::SetLength(Some(l)) = o { Op::SetLength(Some(l.wrapping_add(1))) } else { o.clone() }).collect(),
+        });
+    } else {
+        let mut ops = h.ops.clone();
+        let at = rng.below(ops.len() as u64 + 1) as usize;
+        ops.insert(at, Op::SetLength(Some(x)));
+        v.push(History { ctor: h.ctor.clone(), ops });
+    }
+    // a batch that fails part-way, then an ordinary batch
+    v.push(History { ctor: h.ctor.clone(), ops: vec![Op::Batch(vec![Val::U32(0xA1B2C3D4), Val::TlvStruct(9, Blob::new(5, 3)), Val::Bytes(Blob::new(0, 65536))])] });
+    v.push(History { ctor: h.ctor.clone(), ops: vec![Op::Batch(vec![Val::U16(0x0102), Val::TlvTuple(4, Blob::new(6, 2))])] });
+    v.push(h.clone());
+    v
 }
